@@ -178,6 +178,21 @@ fn bfs(cfg: &SorterCfg, growth_cap: usize, max_states: usize, deadline: &Deadlin
                 Some(msg) => Err(msg),
                 None => Ok(s),
             });
+            // every third transition: the same history on a sorter that is dropped WITHOUT being
+            // consumed (buffered entries and chunks still alive): no allocator report, no leak
+            let r = if transitions % 3 == 0 {
+                r.and_then(|s| {
+                    let b = calloc::live();
+                    run_sizes(cfg, &h2, false)?;
+                    check_alloc("after dropping an unconsumed sorter")?;
+                    match leak_of(b, calloc::live(), || run_sizes(cfg, &h2, false).map(|_| ())) {
+                        Some(m) => Err(format!("dropping the sorter without consuming it: {m}")),
+                        None => Ok(s),
+                    }
+                })
+            } else {
+                r
+            };
             match r {
                 Ok(s2) => {
                     acc.max("buffer_len", s2.buffer_len as u64);
@@ -596,7 +611,7 @@ pub fn run(tier: Tier) -> i32 {
     rep.acc.count("miri_scenario_runs", miri_runs);
     let capped = rep.acc.counters.get("native_configurations_capped").copied().unwrap_or(0) > 0;
     rep.set("exhaustive", json!(!capped && miri_partitions_cut_short == 0));
-    rep.set("rule", json!("(a) native, checking global allocator (guard bands verified on free, dealloc layout must equal alloc layout, freed memory poisoned, per-scenario leak accounting) + overflow checks + debug assertions: closure BFS over the real sorter's bookkeeping states with a state-relative size menu {0, 1, exactly the remaining space, one byte more, larger than the buffer (one doubling), larger than twice the buffer (several doublings)} for both reallocation policies, growth symbols disabled once the buffer exceeds the cap printed in the caps in counters.native_growth_cap_factor_* x T; every transition replays the history on a fresh sorter, finishes it and compares the output with the model; plus four runs with the shipped constants (buffers of 128 KiB doubling to 8 MiB, 10 MiB at once), absurd budgets (2^62 .. usize::MAX, each in a process of its own: refusal by panic or by the allocation-error abort is accepted, a size-arithmetic overflow or a zero-sized / impossible layout reaching the allocator is not), read-path (scan/seek/range/prefix, every codec) and merge scenarios with results compared to the model; (b) the same kind of size sequences and read-path scenarios executed under Miri (Stacked Borrows, leak check) in 16 partitions; distinct_nontrivial = native configurations + Miri scenario runs"));
+    rep.set("rule", json!("(a) native, checking global allocator (guard bands verified on free, dealloc layout must equal alloc layout, freed memory poisoned, per-scenario leak accounting) + overflow checks + debug assertions: closure BFS over the real sorter's bookkeeping states with a state-relative size menu {0, 1, exactly the remaining space, one byte more, larger than the buffer (one doubling), larger than twice the buffer (several doublings)} for both reallocation policies, growth symbols disabled once the buffer exceeds the cap printed in the caps in counters.native_growth_cap_factor_* x T; every transition replays the history on a fresh sorter, finishes it and compares the output with the model (every third one also on a sorter that is dropped unconsumed); plus four runs with the shipped constants (buffers of 128 KiB doubling to 8 MiB, 10 MiB at once), absurd budgets (2^62 .. usize::MAX, each in a process of its own: refusal by panic or by the allocation-error abort is accepted, a size-arithmetic overflow or a zero-sized / impossible layout reaching the allocator is not), read-path (scan/seek/range/prefix, every codec) and merge scenarios with results compared to the model; (b) the same kind of size sequences and read-path scenarios executed under Miri (Stacked Borrows, leak check) in 16 partitions; distinct_nontrivial = native configurations + Miri scenario runs"));
     rep.set("bound", json!({"native": "closure below the growth cap (see samples and counters.native_growth_cap_factor_*)", "miri_partitions": parts}));
     rep.assume("Miri's verdict is per execution: the claim is 'for every enumerated execution'; zstd (FFI) is not run under Miri");
     rep.assume("the native allocator cannot see out-of-bounds reads; those are Miri's part");
